@@ -752,15 +752,15 @@ def make_data_dict_vcf(vcf_filename, popinfo_filename, subsample=None, filter=Tr
 
     if os.path.splitext(popinfo_filename)[1] == '.gz':
         import gzip
-        popinfo_file = gzip.open(popinfo_filename)
+        popinfo_file = gzip.open(popinfo_filename, 'rt')
     elif os.path.splitext(popinfo_filename)[1] == '.zip':
-        import zipfile
+        import zipfile, io
         archive = zipfile.ZipFile(popinfo_filename)
         namelist = archive.namelist()
         if len(namelist) != 1:
             raise ValueError("Must be only a single popinfo file in zip "
                                 "archive: {}".format(popinfo_filename))
-        popinfo_file = archive.open(namelist[0])
+        popinfo_file = io.TextIOWrapper(archive.open(namelist[0]))
     else:
         popinfo_file = open(popinfo_filename)
     # pop_dict has key, value pairs of "SAMPLE_NAME" : "POP_NAME"
